@@ -363,7 +363,7 @@ pub fn c04() -> JobCheck {
 pub fn c05() -> JobCheck {
     JobCheck {
         id: "C05",
-        profile: || Profile { name: "c05", w_replay: 12, w_iterate: 5, w_window: 12, w_keyed_agg: 12, join_in_loop_quarters: 1, ..Profile::base() },
+        profile: || Profile { name: "c05", w_replay: 12, w_iterate: 5, w_window: 12, w_keyed_agg: 12, join_in_loop_quarters: 2, ..Profile::base() },
         monitors: Monitors { grammar: true, per_iteration: true, alignment: true, ..Monitors::default() },
         k: (2, 3),
         cases: (300, 7000),
@@ -568,16 +568,26 @@ pub fn defs() -> Vec<CheckDef> {
                 };
             }
             "C09" => {
-                d.modes = |t| vec![("main", t.pick(8, 12)), ("zip", t.pick(3, 4))];
+                d.modes = |t| vec![("main", t.pick(8, 12)), ("zip", t.pick(3, 4)), ("zip_loop", t.pick(3, 4))];
                 d.run = |ctx, mode| {
                     if mode == "zip" {
                         c09_zip(ctx)
+                    } else if mode == "zip_loop" {
+                        c09_zip_loop(ctx)
                     } else {
                         by_id(&ctx.id).run(ctx, mode)
                     }
                 };
                 d.replay = |ctx, v| {
-                    if v.get("zip").is_some() {
+                    if v.get("zip_loop").is_some() {
+                        let choices: Vec<u16> = serde_json::from_value(v["choices"].clone()).map_err(|e| e.to_string())?;
+                        for i in 0..10 {
+                            if let Case::Fail { message, .. } = zip_loop_case(ctx, &choices, 61_000 + i, false) {
+                                return Err(message);
+                            }
+                        }
+                        Ok("10 runs paired one-to-one within each round".into())
+                    } else if v.get("zip").is_some() {
                         let choices: Vec<u16> = serde_json::from_value(v["choices"].clone()).map_err(|e| e.to_string())?;
                         for i in 0..10 {
                             if let Case::Fail { message, .. } = zip_case(ctx, &choices, 60_000 + i, false) {
@@ -590,7 +600,30 @@ pub fn defs() -> Vec<CheckDef> {
                     }
                 };
             }
-            "C07" => d.modes = |t| vec![("main", t.pick(8, 12)), ("fold_ts", t.pick(2, 4))],
+            "C05" => {
+                d.modes = |t| vec![("main", t.pick(8, 12)), ("zip_loop", t.pick(2, 4))];
+                d.run = |ctx, mode| {
+                    if mode == "zip_loop" {
+                        c09_zip_loop(ctx)
+                    } else {
+                        by_id(&ctx.id).run(ctx, mode)
+                    }
+                };
+                d.replay = |ctx, v| {
+                    if v.get("zip_loop").is_some() {
+                        let choices: Vec<u16> = serde_json::from_value(v["choices"].clone()).map_err(|e| e.to_string())?;
+                        for i in 0..10 {
+                            if let Case::Fail { message, .. } = zip_loop_case(ctx, &choices, 61_000 + i, false) {
+                                return Err(message);
+                            }
+                        }
+                        Ok("10 runs paired one-to-one within each round".into())
+                    } else {
+                        by_id(&ctx.id).replay(ctx, v)
+                    }
+                };
+            }
+            "C07" => d.modes = |t| vec![("main", t.pick(8, 12)), ("fold_ts", t.pick(2, 4)), ("fold_ts_loop", t.pick(2, 4))],
             "C08" => d.modes = |t| vec![("main", t.pick(8, 12)), ("interval", t.pick(3, 4))],
             _ => {}
         }
@@ -724,6 +757,189 @@ fn c09_zip(ctx: &Ctx) -> Report {
     report
 }
 
+#[derive(Clone, Debug, Default, serde::Serialize, serde::Deserialize)]
+struct ZipLoopState {
+    round: i64,
+    cur: Vec<(i64, i64)>,
+    rounds: Vec<Vec<(i64, i64)>>,
+}
+
+/// C09 / C05, zip inside a `replay` body whose two sides change length from round to round (one side
+/// may be a side input from outside the loop). Every element is tagged with the round in which it
+/// entered the body, so a pair made with a leftover of an earlier round is recognisable.
+fn zip_loop_case(ctx: &Ctx, choices: &[u16], n: u64, shrinking: bool) -> Case {
+    use crate::dynop::{erase, DStream};
+    use crate::gen::Chooser;
+    use crate::obs::JobCtx;
+    use crate::run::{run_job, BuildFn, HostOutcome, JobOutcome};
+    use std::sync::Arc;
+    const OFF: i64 = 1_000_000;
+    const TAG: i64 = 10_000;
+    let mut ch = Chooser::new(choices);
+    let len = ([6usize, 20, 60, 200][ch.below(4)] + ch.below(5)) as i64;
+    let rounds = 2 + ch.below(4);
+    // per round (cyclic): how many of the `len` elements each side keeps
+    let la: Vec<i64> = (0..3).map(|_| ch.range(0, len)).collect();
+    let lb: Vec<i64> = (0..3).map(|_| ch.range(0, len)).collect();
+    let outside_b = ch.flag(1, 3);
+    let slow = ch.below(3); // 0 none, 1 side a, 2 side b
+    let data: Vec<u16> = (0..24).map(|_| ch.next()).collect();
+    let cfg = Gen::new(&data, &Profile::base()).config(false, false);
+    let batch = cfg.batch;
+    let (la2, lb2) = (la.clone(), lb.clone());
+    let build: BuildFn<Option<Vec<ZipLoopState>>> = Arc::new(move |env, _| {
+        let src = env.stream_par_iter(move |id: u64, k: u64| (0..len).filter(move |x| (*x as u64) % k == id));
+        let src = match batch {
+            Some(b) => src.batch_mode(b.to_mode()),
+            None => src,
+        };
+        let side: Option<DStream<i64>> = if outside_b {
+            // a side input from outside the loop: the same lb[0] elements in every round
+            Some(erase(env.stream_iter((0..lb2[0]).map(|x| OFF + x)).shuffle()))
+        } else {
+            None
+        };
+        let (la3, lb3) = (la2.clone(), lb2.clone());
+        let out = src
+            .replay(
+                rounds,
+                ZipLoopState::default(),
+                move |s, state| {
+                    let pace = |s: DStream<i64>, on: bool| -> DStream<i64> {
+                        if on {
+                            erase(s.map(|x: i64| {
+                                if x % 4 == 0 {
+                                    std::thread::sleep(std::time::Duration::from_micros(200));
+                                }
+                                x
+                            }))
+                        } else {
+                            s
+                        }
+                    };
+                    let mut parts = s.split(2);
+                    let sb = parts.pop().unwrap();
+                    let sa = parts.pop().unwrap();
+                    let st = state.clone();
+                    let la4 = la3.clone();
+                    let a: DStream<i64> = erase(sa.filter_map(move |x: i64| {
+                        let r = st.get().round;
+                        if x < la4[(r % 3) as usize] {
+                            Some(r * TAG + x)
+                        } else {
+                            None
+                        }
+                    }));
+                    let a = pace(a, slow == 1);
+                    let b: DStream<i64> = match side {
+                        Some(side) => {
+                            // the second branch of the split is not needed
+                            sb.for_each(|_| {});
+                            side
+                        }
+                        None => {
+                            let st = state.clone();
+                            let lb4 = lb3.clone();
+                            erase(sb.filter_map(move |x: i64| {
+                                let r = st.get().round;
+                                if x < lb4[(r % 3) as usize] {
+                                    Some(OFF + r * TAG + x)
+                                } else {
+                                    None
+                                }
+                            }))
+                        }
+                    };
+                    let b = pace(b, slow == 2);
+                    // the body of `replay` must return the element type it received: pack the pair
+                    a.zip(b).map(|(x, y): (i64, i64)| x * 4 * OFF + y)
+                },
+                |d: &mut Vec<(i64, i64)>, p: i64| d.push((p / (4 * OFF), p % (4 * OFF))),
+                |st: &mut ZipLoopState, d: Vec<(i64, i64)>| st.cur.extend(d),
+                |st: &mut ZipLoopState| {
+                    let cur = std::mem::take(&mut st.cur);
+                    st.rounds.push(cur);
+                    st.round += 1;
+                    true
+                },
+            )
+            .collect_vec();
+        Box::new(move || out.get())
+    });
+    let replay = json!({"property": ctx.id, "zip_loop": {"len": len, "rounds": rounds, "keep_a": la, "keep_b": lb, "side_input_from_outside": outside_b, "slow_side": slow}, "configs": [cfg], "choices": choices});
+    let jctx = JobCtx::new(cfg.delays.clone());
+    let hosts = match run_job(&cfg.layout, AddrSeed { shard: ctx.shard, job: n }, jctx, build, watchdog(ctx.tier, shrinking)) {
+        JobOutcome::Finished(h) => h,
+        JobOutcome::Deadlock(d) => return Case::Fail { message: format!("deadlock: {}", d.diagnosis), replay },
+        JobOutcome::Inconclusive(m) => return Case::Inconclusive(m),
+    };
+    let mut states = Vec::new();
+    for (h, o) in hosts.into_iter().enumerate() {
+        match o {
+            HostOutcome::Done(Some(v)) => states.extend(v),
+            HostOutcome::Done(None) => {}
+            HostOutcome::Panicked(m) => return Case::Fail { message: format!("host {h} panicked: {m}"), replay },
+        }
+    }
+    let fail = |m: String| Case::Fail { message: m, replay: replay.clone() };
+    if states.len() != 1 {
+        return fail(format!("the loop emitted {} final states (expected 1)", states.len()));
+    }
+    let st = &states[0];
+    if st.rounds.len() != rounds {
+        return fail(format!("{} rounds were folded into the state, expected {rounds}", st.rounds.len()));
+    }
+    let mut unequal = 0;
+    for (k, pairs) in st.rounds.iter().enumerate() {
+        let na = la[k % 3];
+        let nb = if outside_b { lb[0] } else { lb[k % 3] };
+        if na != nb {
+            unequal += 1;
+        }
+        if pairs.len() as i64 != na.min(nb) {
+            return fail(format!("round {k}: zip of {na} and {nb} elements produced {} pairs, expected min = {}", pairs.len(), na.min(nb)));
+        }
+        let mut xs: Vec<i64> = pairs.iter().map(|p| p.0).collect();
+        let mut ys: Vec<i64> = pairs.iter().map(|p| p.1).collect();
+        xs.sort();
+        ys.sort();
+        if xs.windows(2).any(|w| w[0] == w[1]) || ys.windows(2).any(|w| w[0] == w[1]) {
+            return fail(format!("round {k}: zip used an element twice"));
+        }
+        let k = k as i64;
+        if let Some(x) = xs.iter().find(|x| **x / TAG != k || **x % TAG >= na) {
+            return fail(format!("round {k}: a pair contains the left element {} of round {} (carried over from another round, or not in the input)", x % TAG, x / TAG));
+        }
+        let bad_b = ys.iter().find(|y| {
+            let y = **y - OFF;
+            if outside_b {
+                y < 0 || y >= nb
+            } else {
+                y / TAG != k || y % TAG >= nb
+            }
+        });
+        if let Some(y) = bad_b {
+            return fail(format!("round {k}: a pair contains the right element {} that is not in this round's input", y - OFF));
+        }
+    }
+    Case::Pass { nontrivial: if unequal >= 2 { Some(fingerprint(&(len, rounds, &la, &lb, outside_b, slow, &cfg))) } else { None } }
+}
+
+fn c09_zip_loop(ctx: &Ctx) -> Report {
+    let mut report = Report::default();
+    let counter = std::cell::Cell::new(0u64);
+    search(ctx, 6, ctx.cases(160, 4000), 30..60, &mut report, |choices, rep, shrinking| {
+        let n = counter.get();
+        counter.set(n + 1);
+        let c = zip_loop_case(ctx, choices, 30_000 + n, shrinking);
+        if let Case::Pass { .. } = c {
+            rep.class("zip_in_loop_jobs");
+        }
+        c
+    });
+    report
+}
+
 /// Sub-run for the open known finding F7: the recorded job is run under the watchdog; a deadlock
 /// with an `Iterate` replica parked in a send reproduces the finding.
 fn c04_known(ctx: &Ctx) -> Report {
@@ -772,10 +988,10 @@ fn defs0() -> Vec<CheckDef> {
         mk("C02", "random jobs biased to repartitioning, small batches and padded (up to 70 kB) elements, 2-3 deployments each; observer hook records every batch at NetworkSender::send and matches every received batch against the head of its link's queue (kinds, timestamps, element digests), all queues empty at the end; stamped sequence numbers arrive in order and on one consumer only; non-trivial = some link carried >= 3 batches; distinct = hash of (job, configuration)", COMMON, c02),
         mk("C03", "random jobs dense in repartitioning (forward incl. narrowing, group_by, repartition_by into Limited/Host/One blocks, shuffle, broadcast, route, split with several downstream blocks, hash- and broadcast-shipped joins), replica counts equal/coprime/1/heterogeneous; every element is stamped by the last operator of its block and traced, through the send hook, to the endpoints it was enqueued to; oracle per downstream block: forward = one endpoint, the same-index replica when it exists; group-by = one endpoint, a function of the key alone across all producers and both join inputs; shuffle = one; broadcast = every replica once; route = exactly one replica of the first matching route's block, nothing for unmatched elements; every FlushAndRestart and Terminate a producer emits is sent to every connected endpoint; that equal keys of both inputs of a join (incl. a two-phase aggregation joined with a group_by stream) meet on one replica is additionally judged through the join results at the sinks; non-trivial = a group-by edge with >= 2 keys and >= 2 consumer replicas, or a producer with >= 2 downstream blocks", COMMON, c03),
         mk("C04", "random jobs biased to loops, side inputs, diamonds, empty inputs and small batches; oracle: every host's execute_blocking returns, every worker that started ended without panic, every sink handle yields its complete result on exactly the prescribed hosts; a deadlock is declared by the quiescence watchdog (no engine event for 10 s / 20 s with all live workers parked in a channel operation or flat CPU time); non-trivial = loop, diamond, empty source or a link with > 16 batches", COMMON, c04),
-        mk("C05", "random jobs with a probe after every stage (incl. inside loop bodies); oracle: (a) each replica's sequence at each probe matches ((Item|Timestamped|Watermark|FlushBatch)* FlushAndRestart)+ Terminate, (b) elements stamped in producer iteration k are observed in consumer iteration k on pass-through edges, (c) per probe and iteration the multiset over all replicas equals the reference interpreter's round (all results before the marker, nothing carried over) - loop bodies contain folds, keyed aggregations, joins whose inputs change from round to round, count windows and zips with order-independent results; non-trivial = loop present, or >= 2 replicas and a repartitioning edge", COMMON, c05),
+        mk("C05", "random jobs with a probe after every stage (incl. inside loop bodies); oracle: (a) each replica's sequence at each probe matches ((Item|Timestamped|Watermark|FlushBatch)* FlushAndRestart)+ Terminate, (b) elements stamped in producer iteration k are observed in consumer iteration k on pass-through edges, (c) per probe and iteration the multiset over all replicas equals the reference interpreter's round (all results before the marker, nothing carried over) - loop bodies contain folds, keyed aggregations, joins whose inputs change from round to round, count windows and zips with order-independent results; a second mode (zip_loop) runs replay(2-5 rounds) bodies that zip two branches of the loop stream (or one branch and a side input from outside) whose lengths change from round to round, every element tagged with the round it entered the body in: per round exactly min(|a|,|b|) pairs, made only of this round's elements, none used twice; non-trivial = loop present, or >= 2 replicas and a repartitioning edge (zip_loop: >= 2 rounds with sides of unequal length)", COMMON, c05),
         mk("C07", "random jobs dense in the 10 keyed and 4 global aggregation forms (top level, behind shuffles, inside replay bodies), key counts 1..64, skewed/empty inputs; oracle: per probe and iteration the observed multiset equals the sequential fold per key (one result per occurring key, none for an empty input), hence two-phase forms equal shuffle-then-aggregate forms; sinks equal the reference; non-trivial = aggregation, >= 2 replicas, >= 4 input elements", COMMON, c07),
         mk("C08", "random jobs dense in joins (6 algorithms x inner/left/outer, diamonds = self joins, second sources incl. empty ones, inside loops), delay injection biasing which side arrives/ends first; oracle: join output multiset equals the nested-loop relational join at the probe after the join and at every sink; non-trivial = join, >= 2 replicas, >= 2 elements", COMMON, c08),
-        mk("C09", "random jobs dense in split (fork/diamond), route (1-4 overlapping, non exhaustive predicates), merge, broadcast and zip of sequential streams; oracle: per probe the observed multiset equals the reference (every split branch sees the whole stream, route = first matching predicate, merge = multiset union, broadcast = once per downstream replica, zip positional); a second mode zips two streams with arbitrary arrival order (parallel sources, shuffles, inputs re-partitioned into Limited(n)/Host blocks, a slow side) and checks the validity predicate: exactly min(|a|,|b|) pairs, each pairing one element of each side, none used twice, positional when both are sequential; non-trivial = one of these operators and >= 10 elements (jobs), unequal non-empty sides (zip mode)", COMMON, c09),
+        mk("C09", "random jobs dense in split (fork/diamond), route (1-4 overlapping, non exhaustive predicates), merge, broadcast and zip of sequential streams; oracle: per probe the observed multiset equals the reference (every split branch sees the whole stream, route = first matching predicate, merge = multiset union, broadcast = once per downstream replica, zip positional); a second mode zips two streams with arbitrary arrival order (parallel sources, shuffles, inputs re-partitioned into Limited(n)/Host blocks, a slow side) and checks the validity predicate: exactly min(|a|,|b|) pairs, each pairing one element of each side, none used twice, positional when both are sequential; a third mode (zip_loop) does the same per round for a zip inside a replay body whose sides change length from round to round (elements tagged with their round); non-trivial = one of these operators and >= 10 elements (jobs), unequal non-empty sides (zip mode), >= 2 rounds with unequal sides (zip_loop)", COMMON, c09),
         mk("C10", "random jobs dense in replay/iterate (bounds 0-6, conditions stopping early, nested replay, bodies with shuffles/aggregations/joins), mostly multi-host, delay injection; oracle: a probe at the head of every loop body reads the state handle for every element: it must equal the sequential loop's state of the previous round; per-round multisets at every body probe, number of rounds, final state and output equal the reference; non-trivial = loop and >= 2 replicas", COMMON, c10),
         mk("C11", "random loop jobs whose body merges/joins/zips the loop stream with a stream from outside (side sizes 0..300, small batches, 0-6 rounds); oracle: per round the multiset observed after the combining operator equals the reference (side input complete, identical in every round), the job terminates, each replica's probe sees one Terminate, every worker ends; non-trivial = side input inside a loop", COMMON, c11),
     ]
